@@ -40,7 +40,13 @@ static void res_case(void) {
 #define RHEAD(nm) sb_begin("res", nm); sb_sp(); hp_ring_token(0); sb_sp(); sb_ulong(hp_x[nv - 1]); sb_sp(); sb_poly(A); sb_sp(); sb_poly(B); sb_arrow()
   if (op == 0) {
     lp_polynomial_t* R = hp_dest(0, (int)rnd(3));
-    RHEAD("resultant"); lp_polynomial_resultant(R, A, B); sb_sp(); sb_poly(R); sb_emit();
+    RHEAD("resultant");
+    { unsigned al = rnd(6);        /* output aliased with an input (on a copy), or a pre-used object */
+      if (al == 0) { lp_polynomial_t* Ac = lp_polynomial_new_copy(A); lp_polynomial_resultant(Ac, Ac, B); sb_sp(); sb_poly(Ac); lp_polynomial_delete(Ac); }
+      else if (al == 1) { lp_polynomial_t* Bc = lp_polynomial_new_copy(B); lp_polynomial_resultant(Bc, A, Bc); sb_sp(); sb_poly(Bc); lp_polynomial_delete(Bc); }
+      else if (al == 2) { lp_polynomial_t* O = hp_dest(0, 2); lp_polynomial_resultant(O, A, B); sb_sp(); sb_poly(O); lp_polynomial_delete(O); }
+      else { lp_polynomial_resultant(R, A, B); sb_sp(); sb_poly(R); } }
+    sb_emit();
     lp_polynomial_delete(R);
   } else {
     lp_polynomial_t** out = (lp_polynomial_t**)malloc(sz * sizeof(lp_polynomial_t*));
